@@ -35,7 +35,7 @@ def all_specs(thorough):
     roots.append({"root": "mut-local", "mutable": True, "ptr": None})
     roots.append({"root": "param", "mutable": False, "ptr": None})
     # pointer roots: (source, pointer type mutability, binding kind)
-    for src in ["annotated", "inferred", "param", "fn-result", "field", "weakened"]:
+    for src in ["annotated", "inferred", "param", "fn-result", "field", "weakened", "array-elem", "optional-unwrap"]:
         for pmut in (True, False):
             if src == "weakened" and pmut:
                 continue
@@ -101,6 +101,12 @@ def make_cell(i, spec):
                 H = "HM" if spec["ptr"] else "HI"
                 body.append(f"h{i} {b} {H}.{{ p = {pm} y{i} }};")
                 base = f"h{i}.p"
+            elif src == "array-elem":
+                body.append(f"ps{i} : [2]{pm} S {':' if b == '::' else '='} .[{pm} y{i}, {pm} y{i}];")
+                base = f"ps{i}[1]"
+            elif src == "optional-unwrap":
+                body.append(f"po{i} : ?{pm} S {':' if b == '::' else '='} {pm} y{i};")
+                base = f"#unwrap(po{i})"
             else:  # weakened: a ^mut pointer stored at type ^S
                 body.append(f"p{i} : ^S {':' if b == '::' else '='} ^mut y{i};")
                 base = f"p{i}"
